@@ -2,8 +2,8 @@
 # tools/seeded-verify.sh <ID> [demo-args...]: confirm a sub-agent change in its scratch worktree /tmp/seed-<ID>
 #   with change: demo fails, lib tests pass; without change: demo passes.
 id=$1; shift
-wt=/tmp/seed-$id; out=/tmp/seed-$id-out
-demo=$(ls $out/demo_*.rs | head -1); name=$(basename $demo .rs)
+wt=${SEED_PREFIX:-/tmp/seed}-$id; out=${SEED_PREFIX:-/tmp/seed}-$id-out
+demo=$(ls $out/demo*.rs | head -1); name=$(basename $demo .rs)
 cd $wt || exit 2
 git checkout -q -- src && git apply $out/patch.diff || { echo "patch does not apply"; exit 2; }
 mkdir -p tests; cp $demo tests/$name.rs
